@@ -14,10 +14,11 @@ import (
 )
 
 type mergeCase struct {
-	Ps       []*gen.Prof
-	CopyMask int   // bit i: input i is passed through Copy() first
-	Perm     []int // permutation for the order-independence clause
-	Incompat int   // 0: compatible; 1: sample type differs; 2: period type differs; 3: number of types differs
+	Ps         []*gen.Prof
+	CopyMask   int   // bit i: input i is passed through Copy() first
+	MergedMask int   // bit i: input i is itself the in-memory result of an earlier merge (Compact), as in a chunked merge
+	Perm       []int // permutation for the order-independence clause
+	Incompat   int   // 0: compatible; 1: sample type differs; 2: period type differs; 3: number of types differs
 }
 
 var opts = gen.Opts{Alpha: gen.Plain, MaxSamples: 8, MaxDepth: 5, MaxLines: 3, MinTypes: 1, MaxTypes: 3, SmallVals: true, AnyIDs: true, Unused: true,
@@ -46,7 +47,7 @@ func normal(p *gen.Prof) {
 func genMerge(t *rapid.T) *mergeCase {
 	u := gen.NewUniverse(t, opts)
 	n := rapid.IntRange(1, 4).Draw(t, "nprofiles")
-	c := &mergeCase{CopyMask: rapid.IntRange(0, 15).Draw(t, "copymask")}
+	c := &mergeCase{CopyMask: rapid.IntRange(0, 15).Draw(t, "copymask"), MergedMask: rapid.SampledFrom([]int{0, 0, 1, 2, 3, 5, 15}).Draw(t, "mergedmask")}
 	var pt gen.VT
 	for i := 0; i < n; i++ {
 		p := gen.FromUniverse(t, u, opts)
@@ -90,6 +91,9 @@ func build(c *mergeCase) []*profile.Profile {
 		p := gp.Build()
 		if c.CopyMask&(1<<uint(i)) != 0 {
 			p = p.Copy()
+		}
+		if c.MergedMask&(1<<uint(i)) != 0 {
+			p = p.Compact()
 		}
 		in = append(in, p)
 	}
@@ -468,6 +472,6 @@ func checkHeader(e *vk.Errs, in []*profile.Profile, out *profile.Profile) {
 }
 
 func TestPropMerge(t *testing.T) {
-	vk.Main(t, vk.Spec[mergeCase]{ID: "C03", Facet: "merge", Quick: 3000, Thorough: 30000, Gen: genMerge, Check: checkMerge,
+	vk.Main(t, vk.Spec[mergeCase]{ID: "C03", Facet: "merge", Quick: 12000, Thorough: 60000, Gen: genMerge, Check: checkMerge,
 		Rule: "1..4 profiles assembled from one drawn universe (colliding ids, same binary at different ASLR starts, near-duplicate functions/lines/locations/mappings/labels differing in exactly one attribute at every inline depth, unused entities, zero/negative/cancelling values from {0,±1,±2}); oracle: id-free canonical multiset conservation (coarse identity), uniqueness (fine identity), no extras, header rules, order independence, Compact idempotence, inputs untouched and unaliased; non-trivial = >=2 inputs sharing >=1 canonical stack and >=1 near-duplicate pair present"})
 }
